@@ -37,6 +37,7 @@ def gen_spec(rng: random.Random) -> dict:
     case = rng.choice([1, 1, 1, 2, 2, 3, 4, 5, 6])
     frozen = case != 5 and rng.random() < 0.15
     counter = [0]
+    used_agg = set()
 
     def fname():
         counter[0] += 1
@@ -47,14 +48,22 @@ def gen_spec(rng: random.Random) -> dict:
         kinds_pool = ["dflt", "dflt", "fact", "das", "noinit", "noinit_fact", "initvar_d", "kwonly", "kwreq"]
         if allow_nested:
             kinds_pool.append("nested")
+        for agg in ("props", "flat"):
+            if agg not in used_agg and rng.random() < 0.25:
+                kinds_pool.append(agg)
         n_req = rng.randint(0, min(2, n)) if allow_required else 0
         for i in range(n):
             if i < n_req:
                 kind = rng.choice(["req", "req", "initvar"])
             else:
                 kind = rng.choice(kinds_pool)
+            if kind in ("props", "flat"):
+                if kind in used_agg:
+                    kind = "dflt"
+                else:
+                    used_agg.add(kind)
             f = {"name": fname(), "kind": kind, "alias": None}
-            if kind not in ("initvar", "initvar_d") and rng.random() < 0.25:
+            if kind not in ("initvar", "initvar_d", "props", "flat") and rng.random() < 0.25:
                 f["alias"] = f["name"].upper() + "x"
             fs.append(f)
         return fs
@@ -134,7 +143,12 @@ def render(spec: dict) -> str:
         "from typing import Optional, List",
         "from apischema import alias",
         "from apischema.fields import with_fields_set",
-        "from apischema.metadata import default_as_set",
+        "from apischema.metadata import default_as_set, flatten, properties",
+        "from typing import Dict",
+        "",
+        "@dataclass",
+        "class Inner:",
+        "    i: int = 0",
         "",
     ]
     for c in spec["classes"]:
@@ -172,6 +186,10 @@ def render(spec: dict) -> str:
                 body.append("%s: InitVar[int] = 3" % n)
             elif k == "nested":
                 body.append("%s: Optional[%r] = field(default=None%s)" % (n, c["name"], mds))
+            elif k == "props":
+                body.append("%s: Dict[str, int] = field(default_factory=dict, metadata=properties)" % n)
+            elif k == "flat":
+                body.append("%s: Inner = field(default_factory=Inner, metadata=flatten)" % n)
             elif k == "kwonly":
                 body.append("%s: int = field(default=0, kw_only=True%s)" % (n, mds))
             elif k == "kwreq":
@@ -216,6 +234,7 @@ class Shape:
         self.required = [f["name"] for f in self.fields if f["kind"] in ("req", "initvar", "kwreq")]
         self.always = {f["name"] for f in self.fields if f["kind"] in ("das", "noinit", "noinit_fact")}
         self.nested = {f["name"] for f in self.fields if f["kind"] == "nested"}
+        self.aggregate = {f["name"] for f in self.fields if f["kind"] in ("props", "flat")}
         # the __post_init__ that runs for this class: its own, or the inherited one when the class
         # keeps (or delegates to) the base's generated __init__
         pi = None
@@ -274,6 +293,10 @@ def gen_ops(rng: random.Random, spec: dict, n: int) -> List[list]:
                     d[f] = {"$nested": inner}
                 else:
                     d[f] = None
+            elif sh.by_name[f]["kind"] == "props":
+                d[f] = {"$props": {"zz%d" % rng.randint(0, 3): rng.randint(0, 9)}}
+            elif sh.by_name[f]["kind"] == "flat":
+                d[f] = {"$inner": rng.randint(1, 9)}
             elif sh.by_name[f]["kind"] == "das":
                 d[f] = rng.choice([None, 1, 2])
             else:
@@ -376,18 +399,34 @@ def child_run(plan: dict) -> dict:
         model_construct(sh, set(d), o)
         return o
 
+    def pyval(sh: Shape, v):
+        if isinstance(v, dict) and "$nested" in v:
+            return build_nested(sh, v["$nested"])
+        if isinstance(v, dict) and "$props" in v:
+            return dict(v["$props"])
+        if isinstance(v, dict) and "$inner" in v:
+            return ns["Inner"](v["$inner"])
+        return v
+
     def to_data(sh: Shape, d: dict) -> dict:
         out = {}
         for k, v in d.items():
             key = sh.by_name[k]["alias"] or k
             if isinstance(v, dict) and "$nested" in v:
                 out[key] = to_data(sh, v["$nested"])
+            elif isinstance(v, dict) and "$props" in v:
+                out.update(v["$props"])
+            elif isinstance(v, dict) and "$inner" in v:
+                out["i"] = v["$inner"]
             else:
                 out[key] = v
         return out
 
     def register_deserialized(sh: Shape, obj, d: dict):
         inst = model_construct(sh, set(d), obj)
+        # aggregate fields have no key of their own ("fields whose key was present" is silent
+        # about them; today they are always handed to the constructor): don't-care after deserialize
+        inst.dontcare |= sh.aggregate
         for k, v in d.items():
             if isinstance(v, dict) and "$nested" in v:
                 register_deserialized(sh, getattr(obj, k), v["$nested"])
@@ -405,11 +444,19 @@ def child_run(plan: dict) -> dict:
         for n in sh.real:
             a = sh.alias(n)
             if exclude_unset and n in inst.dontcare:
-                dc.add(a)
+                if n in sh.aggregate:
+                    v_ = getattr(inst.obj, n)
+                    dc.update(v_ if isinstance(v_, dict) else ["i"])
+                else:
+                    dc.add(a)
                 continue
             if exclude_unset and n not in inst.set:
                 continue
             v = getattr(inst.obj, n)
+            if n in sh.aggregate:
+                merged = dict(v) if isinstance(v, dict) else {"i": getattr(v, "i", None)}
+                out.update(merged)
+                continue
             if n in sh.nested and v is not None:
                 sub = by_id.get(id(v))
                 if sub is None:
@@ -463,7 +510,7 @@ def child_run(plan: dict) -> dict:
                                              "expected": e, "got": g, "dontcare": sorted(dc)})
         # the same through the other ways of calling serialize (rotating, to keep runs cheap):
         # untyped / Any, inside a list, with an aliaser, with exclude_none / exclude_defaults
-        variant = stats["checks"] % 6
+        variant = stats["checks"] % (3 if sh.aggregate else 6)
         exp, dc = expected_ser(inst, True)
         if variant == 0:
             got = apischema.serialize(inst.obj)
@@ -515,8 +562,8 @@ def child_run(plan: dict) -> dict:
                 _, cn, pos, kw = op
                 sh = shapes[cn]
                 cls = ns[cn]
-                kwv = {k: (build_nested(sh, v["$nested"]) if isinstance(v, dict) and "$nested" in v else v)
-                       for k, v in kw.items()}
+                kwv = {k: pyval(sh, v) for k, v in kw.items()}
+                pos = [pyval(sh, v) for v in pos]
                 obj = cls(*pos, **kwv)
                 passed = set(sh.pos_params[: len(pos)]) | set(kw)
                 inst = model_construct(sh, passed, obj)
@@ -549,6 +596,10 @@ def child_run(plan: dict) -> dict:
                     stats["skipped"] += 1
                     continue
                 v = op[3]
+                if sh.by_name[n]["kind"] == "props":
+                    v = {"zz9": v}
+                elif sh.by_name[n]["kind"] == "flat":
+                    v = ns["Inner"](v)
                 setattr(inst.obj, n, v)
                 inst.set.add(n)
                 inst.dontcare.discard(n)
@@ -600,7 +651,7 @@ def child_run(plan: dict) -> dict:
                 changes = {}
                 for k in op[2]:
                     n = pick_name(sh, k)
-                    if sh.by_name[n]["kind"] in ("noinit", "noinit_fact") or n in sh.nested:
+                    if sh.by_name[n]["kind"] in ("noinit", "noinit_fact") or n in sh.nested or n in sh.aggregate:
                         continue
                     changes[n] = op[3]
                 for iv in sh.initvars:
@@ -618,7 +669,7 @@ def child_run(plan: dict) -> dict:
                 kw = {}
                 for k in op[2]:
                     n = pick_name(sh, k, real_only=False)
-                    if sh.by_name[n]["kind"] in ("noinit", "noinit_fact") or n in sh.nested:
+                    if sh.by_name[n]["kind"] in ("noinit", "noinit_fact") or n in sh.nested or n in sh.aggregate:
                         continue
                     kw[n] = op[3]
                 for r_ in sh.required:
